@@ -13,6 +13,7 @@ import GojaModel.C13.MapModel
 import GojaModel.C13.Gateway
 import GojaModel.C13.GoSlice
 import GojaModel.C13.Spec
+import GojaModel.C13.ExportTo
 
 namespace GojaModel.C13.Driver
 open GojaModel.C13 GojaModel.Proto
@@ -109,8 +110,14 @@ def runOp (d : DSt) (tok : String) : DSt × String :=
 def runW (ws : List String) : String :=
   match ws with
   | fixed :: cap :: vals :: "|" :: ops =>
-    let vs : List Int := if vals = "-" then [] else (vals.splitOn ",").map int!
-    let init := St.init (fixed = "1") vs.length (nat! cap) (fun i => vs.getD i 0)
+    -- `1,2,3/9,8`: three elements and two stale items left in the spare capacity
+    let (live, spare) := match vals.splitOn "/" with
+      | [a, b] => (a, b)
+      | _ => (vals, "")
+    let vs : List Int := if live = "-" || live = "" then [] else (live.splitOn ",").map int!
+    let sp : List Int := if spare = "" then [] else (spare.splitOn ",").map int!
+    let all := vs ++ sp
+    let init := St.init (fixed = "1") vs.length (max (nat! cap) all.length) (fun i => all.getD i 0)
     let (_, outs) := ops.foldl (fun (acc : DSt × List String) tok =>
         let (d, outs) := acc
         let (d', pre) := runOp d tok
@@ -180,8 +187,12 @@ def runOpSp (d : DSp) (tok : String) : DSp × String :=
 def runWS (ws : List String) : String :=
   match ws with
   | fixed :: cap :: vals :: "|" :: ops =>
-    let vs : List Int := if vals = "-" then [] else (vals.splitOn ",").map int!
-    let init := Sp.init (fixed = "1") vs.length (nat! cap) (fun i => vs.getD i 0)
+    let (live, spare) := match vals.splitOn "/" with
+      | [a, b] => (a, b)
+      | _ => (vals, "")
+    let vs : List Int := if live = "-" || live = "" then [] else (live.splitOn ",").map int!
+    let nsp : Nat := if spare = "" then 0 else (spare.splitOn ",").length
+    let init := Sp.init (fixed = "1") vs.length (max (nat! cap) (vs.length + nsp)) (fun i => vs.getD i 0)
     let (_, outs) := ops.foldl (fun (acc : DSp × List String) tok =>
         let (d, outs) := acc
         let (d', pre) := runOpSp d tok
@@ -274,19 +285,24 @@ def runS (ws : List String) : String :=
 
 def parseField (s : String) : Option (Nat × JVal) :=
   match s.splitOn "=" with
-  | [k, v] =>
-    if v.startsWith "r" then some (nat! k, .ref (nat! (String.ofList (v.toList.drop 1)))) else some (nat! k, .prim (int! v))
+  | [k, v0] =>
+    -- a leading 'g' marks an accessor property whose getter returns the rest: exported like a data property
+    let v := if v0.startsWith "g" then String.ofList (v0.toList.drop 1) else v0
+    if v = "h" then some (nat! k, .hole)
+    else if v.startsWith "r" then some (nat! k, .ref (nat! (String.ofList (v.toList.drop 1)))) else some (nat! k, .prim (int! v))
   | _ => none
 
-def parseNode (s : String) : Bool × JFields :=
+/-- node kinds: o object, a array, m Map, s Set -/
+def parseNode (s : String) : String × JFields :=
   match s.splitOn ":" with
-  | [kind, fs] => (kind = "a", if fs = "" then [] else (fs.splitOn ",").filterMap parseField)
-  | _ => (false, [])
+  | [kind, fs] => (kind, if fs = "" then [] else (fs.splitOn ",").filterMap parseField)
+  | _ => ("o", [])
 
 /-- canonical print: depth-first from the root, fields in key order, numbering objects by first visit -/
-def canonG (isArr : Nat → Bool) (cache : List Nat) (out : List (Nat × GFields)) :
+def canonG (kindOf : Nat → String) (cache : List Nat) (out : List (Nat × GFields)) :
     Nat → List Nat → GVal → List Nat × String
   | _, vis, .prim p => (vis, showInt p)
+  | _, vis, .nil => (vis, "nil")
   | 0, vis, .addr _ => (vis, "…")
   | fuel + 1, vis, .addr a =>
     match handleNo vis a with
@@ -295,21 +311,27 @@ def canonG (isArr : Nat → Bool) (cache : List Nat) (out : List (Nat × GFields
       let fs := match out.find? (fun e => e.1 = a) with
         | some e => e.2
         | none => []
-      let arr := isArr (cache.getD a 0)
-      if arr && fs.isEmpty then (vis, "[]") else
+      let kind := kindOf (cache.getD a 0)
+      let listLike := kind != "o"
+      if listLike && fs.isEmpty then (vis, "[]") else
       let n := vis.length
       let (vis', parts) := fs.foldl (fun (acc : List Nat × List String) (kg : Nat × GVal) =>
-          let (v1, s) := canonG isArr cache out fuel acc.1 kg.2
-          (v1, acc.2 ++ [if arr then s else "k" ++ toString kg.1 ++ ":" ++ s])) (vis ++ [a], [])
-      (vis', "#" ++ toString n ++ (if arr then "[" else "{") ++ ",".intercalate parts ++ (if arr then "]" else "}"))
+          let (v1, s) := canonG kindOf cache out fuel acc.1 kg.2
+          (v1, acc.2 ++ [if kind == "o" then "k" ++ toString kg.1 ++ ":" ++ s
+                         else if kind == "m" then "<" ++ toString kg.1 ++ "," ++ s ++ ">" else s])) (vis ++ [a], [])
+      (vis', "#" ++ toString n ++ (if listLike then "[" else "{") ++ ",".intercalate parts ++ (if listLike then "]" else "}"))
 
-def runX (ws : List String) : String :=
+/-- `asCoded`: Map / Set objects skip the cache lookup (the current mapObject.export / setObject.export);
+    otherwise every object goes through get-then-put (the property: one Go value per script object). -/
+def runX (asCoded : Bool) (ws : List String) : String :=
   let nodes := ws.map parseNode
-  let js : Nat → JFields := fun id => (nodes.getD id (false, [])).2
-  let isArr : Nat → Bool := fun id => (nodes.getD id (false, [])).1
-  let (c, g) := exportRoot js (nodes.length + 2) 0
+  let js : Nat → JFields := fun id => (nodes.getD id ("o", [])).2
+  let kindOf : Nat → String := fun id => (nodes.getD id ("o", [])).1
+  let isMS : Nat → Bool := fun id => asCoded && (kindOf id == "m" || kindOf id == "s")
+  let fuel := 4 * nodes.length + 8
+  let (c, g) := expValK js isMS fuel ECtx.empty (.ref 0)
   if !c.ok then "FUEL" else
-  (canonG isArr c.cache c.out (nodes.length + 2) [] g).2
+  (canonG kindOf c.cache c.out fuel [] g).2
 
 /-! ### M: map wrapper histories.  `M <s|i> k=v,k=v | get:k set:k:x del:k ww:w:x gw:k:x gd:k` (keys 0..9) -/
 
@@ -431,6 +453,122 @@ def runI (ws : List String) : String :=
     " ; ".intercalate outs.reverse
   | _ => "BADLINE"
 
+/-! ### A: argument conversion through the Go-func gateway.  `A <variadic> <kind,kind,…> | <arg> …`
+    args: i<int> | f<hex bits of a non-integral double> | fn (NaN) | fp (+Inf) | fm (-Inf) | fz (-0) | t | F | u | n -/
+
+def parseJArg (s : String) : JArg :=
+  let rest := String.ofList (s.toList.drop 1)
+  if s = "t" then .bool true else if s = "F" then .bool false else if s = "u" then .undef else if s = "n" then .null
+  else if s = "fn" then .num (.flt .nan) else if s = "fp" then .num (.flt .posInf)
+  else if s = "fm" then .num (.flt .negInf) else if s = "fz" then .num (.flt .negZero)
+  else if s.startsWith "i" then .num (.int (int! rest))
+  else if s.startsWith "f" then .num (.flt (.frac ((parseHex? rest).getD 0)))
+  else .undef
+
+def runA (ws : List String) : String :=
+  match ws with
+  | va :: ks :: "|" :: args =>
+    let kinds := (ks.splitOn ",").filterMap kindOf
+    let variadic := b! va
+    let vals := (gatewayCall kinds variadic (args.map parseJArg)).map showInt
+    let nfixed := if variadic then kinds.length - 1 else kinds.length
+    "fixed=[" ++ ",".intercalate (vals.take nfixed) ++ "] tail=[" ++ ",".intercalate (vals.drop nfixed) ++ "]"
+  | _ => "BADLINE"
+
+/-! ### Y: one ExportTo into *YNode / *ZNode over a script graph (`Y <Y|Z> n:Any=r1,Next=r2,V=5 m:k0=r1 l:r1,r2 …`) -/
+
+def yNames : List String := ["Any", "Next", "M", "L", "Any2", "Kids", "Next2", "V"]
+
+def yNameOf (k : Nat) : String := if k < 100 then yNames.getD k "?" else "k" ++ toString (k - 100)
+
+def yCodeOf (s : String) : Nat :=
+  match handleNoStr yNames s with
+  | some n => n
+  | none => 100 + nat! (String.ofList (s.toList.drop 1))
+where
+  handleNoStr (l : List String) (s : String) : Option Nat :=
+    let rec go : List String → Nat → Option Nat
+      | [], _ => none
+      | x :: xs, n => if x = s then some n else go xs (n + 1)
+    go l 0
+
+/-- type table: 0 = *Node, 1 = map[string]*Node (named), 2 = []*Node, 3 = []interface{} -/
+def yTys (z : Bool) : Nat → TyDef
+  | 0 => if z
+      then .structPtr [(1, .named 0), (0, .iface), (3, .named 2), (2, .named 1), (4, .iface), (6, .named 0), (5, .named 3), (7, .iface)]
+      else .structPtr [(0, .iface), (1, .named 0), (2, .named 1), (3, .named 2), (4, .iface), (5, .named 3), (6, .named 0), (7, .iface)]
+  | 1 => .mapOf (.named 0)
+  | 2 => .sliceOf (.named 0)
+  | _ => .sliceOf .iface
+
+def parseYNode (s : String) : String × JFields :=
+  match s.splitOn ":" with
+  | [kind, body] =>
+    let parts := if body = "" then [] else body.splitOn ","
+    if kind = "l" then
+      (kind, (List.range parts.length).map (fun i =>
+        let v := parts.getD i ""
+        (i, if v.startsWith "r" then JVal.ref (nat! (String.ofList (v.toList.drop 1))) else JVal.prim (int! v))))
+    else
+      (kind, parts.filterMap (fun p => match p.splitOn "=" with
+        | [k, v] => some (yCodeOf k, if v.startsWith "r" then JVal.ref (nat! (String.ofList (v.toList.drop 1))) else JVal.prim (int! v))
+        | _ => none))
+  | _ => ("n", [])
+
+def insertByName (x : Nat × GVal) : GFields → GFields
+  | [] => [x]
+  | y :: ys => if yNameOf x.1 < yNameOf y.1 then x :: y :: ys else y :: insertByName x ys
+
+/-- Go maps have no order: both sides visit and print map entries sorted by key -/
+def sortByName (fs : GFields) : GFields := fs.foldl (fun acc x => insertByName x acc) []
+
+def canonY (kindOf : Nat → String) (tys : Nat → TyDef) (cache : List (Nat × Nat)) (out : List (Nat × GFields)) :
+    Nat → List Nat → GVal → List Nat × String
+  | _, vis, .prim p => (vis, showInt p)
+  | _, vis, .nil => (vis, "nil")
+  | 0, vis, .addr _ => (vis, "…")
+  | fuel + 1, vis, .addr a =>
+    match handleNo vis a with
+    | some n => (vis, "#" ++ toString n)
+    | none =>
+      let fs := match out.find? (fun e => e.1 = a) with
+        | some e => e.2
+        | none => []
+      let (id, cd) := cache.getD a (0, 0)
+      -- shape of the Go value: untyped export of an array / typed slice → list; typed struct → *{…}; otherwise a map
+      let shape : String :=
+        if cd = 0 then (if kindOf id == "l" then "list" else "map")
+        else match tys (cd - 1) with
+          | .structPtr _ => "struct"
+          | .mapOf _ => "map"
+          | .sliceOf _ => "list"
+      if shape == "list" && fs.isEmpty then (vis, "[]") else
+      let n := vis.length
+      let fs' := if shape == "map" then sortByName fs else fs
+      let (vis', parts) := fs'.foldl (fun (acc : List Nat × List (String × String)) (kg : Nat × GVal) =>
+          let (v1, s) := canonY kindOf tys cache out fuel acc.1 kg.2
+          (v1, acc.2 ++ [(yNameOf kg.1, s)])) (vis ++ [a], [])
+      let body :=
+        if shape == "list" then ",".intercalate (parts.map (·.2))
+        else if shape == "struct" then ",".intercalate (parts.map (fun p => p.1 ++ ":" ++ p.2))
+        else ",".intercalate (parts.map (fun p => p.1 ++ ":" ++ p.2))
+      (vis', "#" ++ toString n ++ (if shape == "list" then "[" else if shape == "struct" then "*{" else "{") ++ body ++
+        (if shape == "list" then "]" else "}"))
+
+def runY (ws : List String) : String :=
+  match ws with
+  | tz :: nodeToks =>
+    let nodes := nodeToks.map parseYNode
+    let js : Nat → JFields := fun id => (nodes.getD id ("n", [])).2
+    let kindOf : Nat → String := fun id => (nodes.getD id ("n", [])).1
+    let tys := yTys (tz = "Z")
+    let asU : Nat → Nat → Bool := fun id t => t == 3 && kindOf id == "l"
+    let fuel := 6 * nodes.length + 10
+    let (c, g) := expTo js tys asU fuel TCtx.empty (.ref 0) (.named 0)
+    if !c.ok then "FUEL" else
+    (canonY kindOf tys c.cache c.out fuel [] g).2
+  | _ => "BADLINE"
+
 def handle (line : String) : String :=
   match words line with
   | "W" :: rest => runW rest
@@ -438,9 +576,12 @@ def handle (line : String) : String :=
   | "N" :: rest => runN rest
   | "F" :: rest => runF rest
   | "S" :: rest => runS rest
-  | "X" :: rest => runX rest
+  | "X" :: rest => runX true rest
+  | "XS" :: rest => runX false rest
   | "M" :: rest => runM rest
   | "C" :: rest => runC rest
+  | "A" :: rest => runA rest
+  | "Y" :: rest => runY rest
   | "I" :: rest => runI rest
   | "J" :: rest => runJ rest
   | _ => "BADLINE"
